@@ -1,4 +1,5 @@
 """C14 — an HTTP request reaches the shell exactly as the app described it (structural clauses)."""
+import re
 from rules.facts import norm, path_matches, origins, flows_to, call_matches, last_seg
 from rules.props.c16 import coroutine_body
 
@@ -42,6 +43,23 @@ def check(ctx, rep):
         rep.missing('R14.f', 'crux_core facts')
     else:
         _prims.check_request_typestate(rep, 'R14.f', _core)
+    # R14.g: the URL the app gave is the URL the shell gets: nothing in crux_http edits a Url in place (who-may-call, expected count zero,
+    # with a positive control in the fixture crate)
+    rep.rule('R14.g', 'nothing in crux_http edits a URL in place (no Url::set_* / *_mut call)', floor=1)
+    URL_EDIT = re.compile(r'^url::Url::(set_\w+|query_pairs_mut|path_segments_mut)$')
+    _http = ctx.crate('default', 'crux_http')
+    _edits = []
+    for f in (_http.built if _http else []):
+        if f.j.get('exp') or '::testing' in f.npath:
+            continue
+        for bb, t in f.calls():
+            if URL_EDIT.match(norm(t.get('callee') or '')):
+                _edits.append('%s at %s' % (last_seg(t['callee']), f.where(bb)))
+    rep.expect('R14.g', _http is not None and not _edits, 'no-url-edit', 'no in-place edit of a Url in crux_http',
+               'crux_http edits a URL in place (%s): method, absolute URL including query and fragment must reach the shell as the app gave them' % _edits)
+    _ctl = ctx.crate('controls', 'crux_verif_controls')
+    _fs = _ctl.find('c15::strip_fragment') if _ctl else []
+    rep.control('R14.g fires on Url::set_fragment', bool(_fs) and any(URL_EDIT.match(norm(t.get('callee') or '')) for _, t in _fs[0].calls()))
     rep.assume('http_types Request::{method,url,take_body,set_body,insert_header,set_query}, Body::{from_json,from_string,from_form,'
                'into_bytes} and url::Url behave as documented (third-party)')
 
